@@ -533,7 +533,14 @@ resolves in the result -/
 def queryObjFound {β γ : Type} (sprops : List (Str × β)) (props : List (Str × Str)) (val : List (Str × γ)) : Bool :=
   !sprops.isEmpty && props.any (fun kv => hasKey kv.1 sprops || hasKey kv.1 val)
 
-def queryObj (prim : PT → Str → PR) (absentAware : Bool) (name : Str) (st : Sty) (ex : Bool) (r : Req)
+/-- `found` on the specification side (`presenceAware`): the code computes `found` inside its loop over the *declared*
+properties, so an object schema that declares none (a free-form map: `additionalProperties: {…}` only) is never
+found, whatever the request carries (finding F-C05-6); the specification counts such a parameter as present as soon
+as a property was decoded for it. -/
+def objFound (presenceAware : Bool) {β γ : Type} (sprops : List (Str × β)) (val : List (Str × γ)) (codeFound : Bool) : Bool :=
+  if presenceAware && sprops.isEmpty then !val.isEmpty else codeFound
+
+def queryObj (prim : PT → Str → PR) (absentAware presenceAware : Bool) (name : Str) (st : Sty) (ex : Bool) (r : Req)
     (sprops : List (Str × PS)) (addl : Option PS) : Out :=
   if st ≠ .form then badMethodObj else
   -- specification side only (`absentAware`): an exploded object none of whose declared properties occurs in the
@@ -553,7 +560,7 @@ def queryObj (prim : PT → Str → PR) (absentAware : Bool) (name : Str) (st : 
   | some (some props) =>
     match makeObject prim props sprops addl with
     | none => ⟨.nilObj, false, some .parse⟩
-    | some kvs => ⟨.obj kvs, queryObjFound sprops props kvs, none⟩
+    | some kvs => ⟨.obj kvs, objFound presenceAware sprops kvs (queryObjFound sprops props kvs), none⟩
 
 /-! ### deepObject, one level: `name[prop]=v` and `name[prop][i]=v` -/
 
@@ -737,12 +744,52 @@ def dvPrims : List (Str × DV) → List (Str × PV)
   | (_, .a _) :: rest => dvPrims rest
   | (_, .o _) :: rest => dvPrims rest
 
-/-- a flat object schema under style deepObject (additionalProperties schema: not modelled, not generated) -/
+/-- a flat object schema under style deepObject, no additionalProperties schema -/
 def queryDeepFlat (prim : PT → Str → PR) (name : Str) (r : Req) (sprops : List (Str × PS)) : Out :=
   let o := queryDeep prim name r (sprops.map (fun kv => (kv.1, DS.prim kv.2)))
   match o.val with
   | .dobj kvs => ⟨.obj (dvPrims kvs), o.found, o.err⟩
   | _ => o
+
+/-- first bracket segment of every key: the keys of makeObject's top-level map `mobj` -/
+def topKeys : List (List Str × List Str) → List Str
+  | [] => []
+  | ([], _) :: rest => topKeys rest
+  | (k :: _, _) :: rest => k :: topKeys rest
+
+/-- buildResObj's additionalProperties loop under deepObject (primitive additionalProperties schema): an undeclared
+top-level key must carry a single text; a key that goes deeper (`name[k][x]`) is "not convertible to primitive",
+the key "" addresses the parameter map itself -/
+def deepAddl (prim : PT → Str → PR) (props : List (List Str × List Str)) (a : PS) : List Str → Option (List (Str × PV))
+  | [] => some []
+  | k :: rest =>
+    if k = [] then none
+    else if !(deepUnder k props).isEmpty then none
+    else match deepScalar k props with
+      | some [s] => match prim a.t s with
+        | .err => none
+        | .nil => deepAddl prim props a rest
+        | .val v => (deepAddl prim props a rest).map ((k, v) :: ·)
+      | some _ => none
+      | none => deepAddl prim props a rest
+
+def liftP (res : List (Str × PV)) : List (Str × DV) := res.map (fun kv => (kv.1, DV.p kv.2))
+
+/-- a flat object schema with an additionalProperties schema under style deepObject -/
+def queryDeepFlatA (prim : PT → Str → PR) (presenceAware : Bool) (name : Str) (r : Req) (sprops : List (Str × PS)) (a : PS) : Out :=
+  match deepProps name r.query with
+  | [] => absentObj
+  | props =>
+    if deepClash props then ⟨.nilObj, false, some .parse⟩ else
+    match buildDeep prim props (sprops.map (fun kv => (kv.1, DS.prim kv.2))) with
+    | none => ⟨.nilObj, false, some .parse⟩
+    | some kvs =>
+      match deepAddl prim props a ((dedup (topKeys props)).filter (fun k => !hasKey k sprops)) with
+      | none => ⟨.nilObj, false, some .parse⟩
+      | some extra =>
+        ⟨.obj (dvPrims kvs ++ extra),
+         objFound presenceAware sprops (dvPrims kvs ++ extra)
+           (deepFound (sprops.map (fun kv => (kv.1, DS.prim kv.2))) props (kvs ++ liftP extra)), none⟩
 
 /-! ## headerParamDecoder, cookieParamDecoder -/
 
@@ -798,9 +845,10 @@ structure Flavour where
   prim : PT → Str → PR
   cookieExplodeBad : Bool
   absentAware : Bool
+  presenceAware : Bool
 
-def impl : Flavour := ⟨parsePrim, true, false⟩
-def spec : Flavour := ⟨specPrim, false, true⟩
+def impl : Flavour := ⟨parsePrim, true, false, false⟩
+def spec : Flavour := ⟨specPrim, false, true, true⟩
 
 def decodeLeaf (fl : Flavour) (c : Cell) (name : Str) (r : Req) : Leaf → Out
   | .prim ps => match c.loc with
@@ -815,13 +863,16 @@ def decodeLeaf (fl : Flavour) (c : Cell) (name : Str) (r : Req) : Leaf → Out
     | .cookie => cookieArr fl.prim fl.cookieExplodeBad c.style c.explode r items.t
   | .obj sprops _ addl => match c.loc with
     | .path => pathObj fl.prim name c.style c.explode r sprops addl
-    | .query => if c.style = .deepObject then queryDeepFlat fl.prim name r sprops
-                else queryObj fl.prim fl.absentAware name c.style c.explode r sprops addl
+    | .query => if c.style = .deepObject then
+                  (match addl with
+                   | none => queryDeepFlat fl.prim name r sprops
+                   | some a => queryDeepFlatA fl.prim fl.presenceAware name r sprops a)
+                else queryObj fl.prim fl.absentAware fl.presenceAware name c.style c.explode r sprops addl
     | .header => headerObj fl.prim c.style c.explode r sprops addl
     | .cookie => cookieObj fl.prim fl.cookieExplodeBad c.style c.explode r sprops addl
   | .deep sprops _ => match c.loc, c.style with
     | .query, .deepObject => queryDeep fl.prim name r sprops
-    | .query, .form => queryObj fl.prim fl.absentAware name c.style c.explode r [] none   -- never generated
+    | .query, .form => queryObj fl.prim fl.absentAware fl.presenceAware name c.style c.explode r [] none   -- never generated
     | .query, _ => badMethodObj
     | .path, _ => pathObj fl.prim name c.style c.explode r [] none
     | .header, _ => headerObj fl.prim c.style c.explode r [] none
@@ -1154,6 +1205,15 @@ def leafQueryObjAbsent (r : Req) : Leaf → Bool
 def QueryObjAbsent (p : Param) (r : Req) : Bool :=
   p.cell.loc = .query && p.cell.style = .form && p.cell.explode && !r.query.isEmpty &&
   (schLeaves p.schema).any (leafQueryObjAbsent r)
+
+/-- F-C05-6: a query parameter whose object schema declares no property but has an additionalProperties schema
+(a free-form map): the code's `found` is always false, so a supplied required parameter is reported missing -/
+def leafNoProps : Leaf → Bool
+  | .obj [] _ (some _) => true
+  | _ => false
+
+def QueryObjNoProps (p : Param) : Bool :=
+  p.cell.loc = .query && (schLeaves p.schema).any leafNoProps
 
 /-! ## Encodable: the injectivity domain of the specification's encoding -/
 
